@@ -3,6 +3,7 @@ Line-protocol driver for the executable world model (`spdriver`).
 Reads scenarios from stdin, prints the canonical observation stream to stdout.
 -/
 import SimProc.Model.World
+import Std.Data.HashMap
 open SimProc
 
 def SimProc.Err.str : Err → String
@@ -99,9 +100,11 @@ def dump (w : World) : List String :=
     "q " ++ joinC (w.env.events.map evStr),
     "z " ++ joinC (w.env.paused.map evStr) ] ++
   w.rm.pools.map (fun (r, u, c) => s!"r {r} use={u} cap={c}") ++
-  (if w.rm.waiting.isEmpty then [] else
+  (if w.rm.waiting.isEmpty then ["wq -"] else
     ["wq " ++ joinC (w.rm.waiting.map (fun (rq, cb) => reqStr rq ++ "@" ++
       (match cb with | .script k => s!"s{k}" | .proc d => s!"p{d}")))]) ++
+  [ "hsum 0 " ++ joinS (w.rm.pools.map (fun (r, _, _) =>
+      s!"{r}:{(w.rm.resv.map (fun p => ((RM.heldAmt p.2 r).getD 0))).foldl (· + ·) 0}")) ] ++
   idxMap w.vars (fun h v => s!"h {h} " ++ match v with
     | none => "none" | some id => "[" ++ reqStr ((w.rm.held id).getD []) ++ "]") ++
   idxMap w.devs (devStr w) ++
@@ -277,22 +280,39 @@ def flushResults (w : World) : IO World := do
 structure DState where
   w : World := {}
   nrec : Nat := 0
+  last : Std.HashMap String String := {}
 
+/-- Key of a state line for delta printing: tag, plus the index for indexed lines. -/
+def lineKey (l : String) : String :=
+  match l.splitOn " " with
+  | t :: i :: _ => if t == "now" || t == "q" || t == "z" || t == "wq" then t else t ++ " " ++ i
+  | _ => l
+
+/-- Print the results, the new records and the state lines that changed since they were last
+printed (`now` is always printed: it delimits the frames). -/
 def printState (s : DState) : IO DState := do
   let w ← flushResults s.w
-  for r in w.recs.drop s.nrec do IO.println (recStr r)
-  for l in dump w do IO.println l
+  for r in w.recs do IO.println (recStr r)
+  -- the driver drains the data log after printing it (nothing in the model reads it)
+  let w := { w with recs := [] }
+  let mut last := s.last
+  let lines := dump w
+  for l in lines do
+    let k := lineKey l
+    if k == "now" || last.get? k != some l then
+      IO.println l
+      last := last.insert k l
   match w.error with
   | some m => IO.println ("model-error " ++ m)
   | none => pure ()
-  return { w := w, nrec := w.recs.length }
+  return { w := w, nrec := 0, last := last }
 
 def afterEvent (e : Event) (s : DState) : IO DState := do
   IO.println s!"ev {e.time} {e.prio} {e.asset} {e.act} {if e.live then "ran" else "cancelled"}"
   printState s
 
 partial def runIO (s : DState) (n : Nat) : IO DState := do
-  if n ≥ 20000 then
+  if n ≥ 8000 then
     IO.println "abort StepLimit"; return s
   if s.w.error.isSome then return s
   if s.w.env.running then
